@@ -151,7 +151,8 @@ def gen(tier, rng, shard, nshards):
         elif r < 0.9:
             yield {"mode": "hutch-formula", "seed": S.seed(rng), "key": int(rng.integers(0, 2**31 - 1)), "n": int(S.pick(rng, [2, 3, 6, 10, 101, 130])),
                    "k": int(S.pick(rng, [0, 0, 1, -1, 3, -3])), "rand": S.pick(rng, ["normal", "rademacher"]), "max_iters": int(S.pick(rng, [1, 2, 3, 7])),
-                   "dt": S.pick(rng, ["f8", "f8", "c16"]), "kind": S.pick(rng, ["Dense", "Diagonal", "Dense"])}
+                   "dt": S.pick(rng, ["f8", "f8", "c16"]), "kind": S.pick(rng, ["Dense", "Diagonal", "Dense"]),
+                   "via": S.pick(rng, ["function", "function", "Hutch-object"])}
         else:
             yield {"mode": "hutch-bias", "seed": S.seed(rng), "n": int(S.pick(rng, [3, 5, 8])), "k": int(S.pick(rng, [0, 1, -1])),
                    "rand": S.pick(rng, ["normal", "rademacher"])}
@@ -322,8 +323,18 @@ def run_formula(ctx, case):
     TAP.start()
     LOOPS.install()
     LOOPS.start(hard_cap=case["max_iters"] + 5)
+    via = case.get("via", "function")
+    preds["via"] = via
     try:
-        out = ctx.call(hutchinson_diag_estimate, A, k=k, tol=2e-3, max_iters=case["max_iters"], rand=rand, key=case["key"])
+        if via == "Hutch-object":
+            # the same estimator reached through the public entry point with an algorithm object carrying every option
+            # (a matrix-free operator: kinds with a structural diag rule never reach the estimator)
+            from cola import linalg as L
+            G = cola.ops.LinearOperator(M.dtype, M.shape, matmat=lambda X, M=M: M @ X)
+            out = ctx.call(L.diag, G, k, L.Hutch(tol=2e-3, max_iters=case["max_iters"], rand=rand, key=case["key"]))
+            out = out if is_err(out) else (out, )
+        else:
+            out = ctx.call(hutchinson_diag_estimate, A, k=k, tol=2e-3, max_iters=case["max_iters"], rand=rand, key=case["key"])
     finally:
         recs = LOOPS.stop()
         events, probes = TAP.stop()
